@@ -71,8 +71,11 @@ type result struct {
 
 // runSteps executes steps on fresh objects; checks every exchange.
 func runSteps(alg refcrypto.Alg, sscClass int, steps []step) result {
+	return runStepsSSC(alg, smdrv.SSCStart(alg, sscClass), steps)
+}
+
+func runStepsSSC(alg refcrypto.Alg, ssc []byte, steps []step) result {
 	enc, mac := smdrv.Keys(alg, "c10")
-	ssc := smdrv.SSCStart(alg, sscClass)
 	chip := refcrypto.NewSM(alg, enc, mac, ssc)
 	lib, err := smdrv.NewLibSM(alg, enc, mac, ssc)
 	if err != nil {
@@ -254,6 +257,38 @@ part2:
 	for _, alg := range smdrv.Algs {
 		for _, ssc := range []int{0, 1, 3} {
 			rec(alg, ssc, nil)
+		}
+	}
+	// part 2b: counter carry across every byte boundary (a counter implemented on a narrower integer would diverge here)
+	sec2b := "counter carry at every byte boundary"
+	c.SecBound(sec2b, "4 algs x every k in 1..blocksize-1: initial SSC = 2^(8k)-2 (low k bytes FF..FE, rest 00) and the same with the upper bytes 0x01; history of 3 exchanges incl. a protected error status")
+	for _, alg := range smdrv.Algs {
+		for k := 1; k < alg.Block(); k++ {
+			for _, hi := range []byte{0x00, 0x01} {
+				if !c.Mine() {
+					continue
+				}
+				ssc := make([]byte, alg.Block())
+				for i := range ssc {
+					ssc[i] = hi
+				}
+				for i := 0; i < k; i++ {
+					ssc[len(ssc)-1-i] = 0xFF
+				}
+				ssc[len(ssc)-1] = 0xFE
+				steps := []step{{shapes[1], 0}, {shapes[2], 2}, {shapes[3], 0}}
+				r := runStepsSSC(alg, ssc, steps)
+				c.AddStates(3)
+				c.AddTrans(3)
+				c.AddTraces(1)
+				if r.Key != "" {
+					c.Violation(sec2b, r.Key+"/carry-at-byte-boundary", fmt.Sprintf("alg %s initial SSC %x: %s", alg, ssc, r.What), map[string]any{"alg": int(alg), "ssc": vc.Hex(ssc), "steps": steps}, nil)
+					c.Outcome(sec2b, "VIOLATION")
+				} else {
+					c.Outcome(sec2b, "lockstep")
+				}
+				c.Distinct(fmt.Sprintf("carry/%d/%d/%d", alg, k, hi))
+			}
 		}
 	}
 	// part 3: no command leaves unprotected once a session exists - complete reads of genuinely issued chips
